@@ -287,6 +287,46 @@ func runProperty(p *Property, tier string, seed, workers int, only string, norep
 		total.Samples = append(total.Samples, sum.Samples...)
 	}
 
+	// cross-solver diff (thorough tier): the cheapest instance is explored again with z3 5.x;
+	// the two explorations must agree on the number of paths, their ends and the violations.
+	crossDiff := "not run (quick tier)"
+	if tier == "thorough" && len(results) > 0 && !stopAll {
+		best := 0
+		for i, r := range results {
+			if r.Sum.Wall < results[best].Sum.Wall && r.Sum.Paths > 1 {
+				best = i
+			}
+		}
+		in := results[best].Inst
+		if _, err := exec.LookPath("z3-new"); err == nil {
+			h := eng.FindFunc(modPath + in.Pkg + "." + in.Fn)
+			eng.Params = in.Params
+			eng.MaxAlloc = 64
+			if in.MaxAlloc > 0 {
+				eng.MaxAlloc = in.MaxAlloc
+			}
+			eng.SetRedirects(p.Redirects, in.Redirects)
+			eng.StopOn = nil
+			eng.Deadline = time.Now().Add(30 * time.Minute)
+			old := eng.SolverBin
+			eng.SolverBin = "z3-new"
+			alt := eng.Run(h, workers)
+			eng.SolverBin = old
+			a, b := results[best].Sum, alt
+			if alt.EngineError != "" {
+				crossDiff = fmt.Sprintf("%s: z3-new run failed: %s", in, alt.EngineError)
+			} else if a.Paths != b.Paths || len(a.Violations) != len(b.Violations) || a.Ends["return"] != b.Ends["return"] {
+				crossDiff = fmt.Sprintf("DISAGREEMENT on %s: z3 4.8.12 paths=%d viol=%d, z3-new paths=%d viol=%d", in, a.Paths, len(a.Violations), b.Paths, len(b.Violations))
+				fmt.Println("SOLVER-DISAGREEMENT", crossDiff)
+				engineErrs = append(engineErrs, crossDiff)
+			} else {
+				crossDiff = fmt.Sprintf("%s: z3 4.8.12 and z3-new agree (paths=%d, returns=%d, violations=%d; z3-new %d queries, %.1fs)", in, b.Paths, b.Ends["return"], len(b.Violations), b.Queries, b.SolverTime.Seconds())
+			}
+		} else {
+			crossDiff = "z3-new not found"
+		}
+	}
+
 	exit := 0
 	// engine errors: inconclusive, never success
 	for _, e := range engineErrs {
@@ -442,6 +482,7 @@ func runProperty(p *Property, tier string, seed, workers int, only string, norep
 			"solver":                        solverVersion(),
 			"load_and_ssa_build_s":          loadTime.Seconds(),
 			"engine_errors":                 engineErrs,
+			"cross_solver_diff":             crossDiff,
 			"instances_skipped_after_violation": skipped,
 			"known_findings_seen":           keys(knownSeen),
 		},
